@@ -177,8 +177,8 @@ def check_opening(v, ranges, k, slack, p):
     secret = {n for n in names if not is_random(n) and '!' not in n}
     if not secret:
         return 'pub', 'no secret symbol', set()
-    if v.D != 1:
-        raise GhostViolation('leak:unmasked', f'opened value is a quotient N/{v.D} containing secrets {sorted(secret)}: no masking pattern')
+    # value = N / D mod P: multiplication by D^-1 is a bijection of the field, so the opened value hides exactly what N mod P hides; the
+    # pattern is decided on N (a mask coefficient then carries the factor D, and D must divide the rest: checked below through g)
     # multiplicative blinding: a factor that is a bare randomness symbol over the whole field
     for fct in (v.factors or []):
         if isinstance(fct, SymInt) and z3.is_const(fct.z) and fct.z.decl().kind() == z3.Z3_OP_UNINTERPRETED:
